@@ -158,6 +158,11 @@ func (e *Environment) SaveGlobals(to io.Writer, maxValueLen int) (int, error) {
 			continue
 		}
 		v := e.store[k]
+		val := v.Inspect()
+		if maxValueLen > 0 && len(val) > maxValueLen {
+			log.Warnf("Skipping %q as it's too long (%d > %d)", k, len(val), maxValueLen)
+			continue
+		}
 		if v.Type() == FUNC {
 			f := v.(Function)
 			if f.Name != nil && f.Name.Literal() == k {
@@ -175,11 +180,6 @@ func (e *Environment) SaveGlobals(to io.Writer, maxValueLen int) (int, error) {
 			// Anonymous functions, and named ones held under another name, are like other variables.
 			//   x=func(a,b){a+b}   g=func f(a){a+1}
 			// fallthrough.
-		}
-		val := v.Inspect()
-		if maxValueLen > 0 && len(val) > maxValueLen {
-			log.Warnf("Skipping %q as it's too long (%d > %d)", k, len(val), maxValueLen)
-			continue
 		}
 		_, err := fmt.Fprintf(to, "%s=%s\n", k, val)
 		if err != nil {
